@@ -11,6 +11,6 @@ def jobs(tier):
 META = {
     "trusted_base": D.DFS_TRUSTED,
     "assumptions": [],
-    "outside": ["probe_geometry / make_candidate_list candidate selection (std::vector, std::function, min_element with lambdas): which geometry is chosen is not proved, only that every selectable geometry maps correctly"],
-    "explanation": "FileView::read_block against the documented position formula; FilePresentedBlockwise byte offset 256*lba",
+    "outside": ["filter_formats / std::min_element plumbing of probe_geometry and the candidate loops of make_candidate_list (the three decisions of probe_geometry are under contract in C13, the name hints in C10)"],
+    "explanation": "FileView::read_block against the documented position formula; FilePresentedBlockwise byte offset 256*lba, a sector only for a full 256-byte read; view construction of non-interleaved / interleaved / MMB containers; one drive configuration per view in order (unformatted views included, never probed); dump-sector accepts exactly the decimal numbers 0..limit and addresses sector t*S+s",
 }
